@@ -237,5 +237,36 @@ func TestVerifBounded_C18_Tables(t *testing.T) {
 			t.Fatalf("Solexa: Encode(Decode(%d)) = %d", b, got)
 		}
 	}
+	// cross cases: a Phred score written under the Solexa encoding is the byte of its converted Solexa score, and a
+	// Solexa score written under a Phred-offset encoding is the byte of its converted Phred score (wherever the
+	// converted score lies in the encoding's printable range)
+	for q := 1; q <= 93; q++ {
+		cases++
+		if s := int(Qphred(q).Qsolexa()); -5 <= s && s <= 62 {
+			nontrivial++
+			if got := Qphred(q).Encode(Solexa); got != byte(s+64) {
+				t.Fatalf("Qphred(%d).Encode(Solexa) = %d, want %d (Solexa score %d)", q, got, s+64, s)
+			}
+		}
+	}
+	for qs := -127; qs < 127; qs++ {
+		p := Qsolexa(qs).Qphred()
+		for _, e := range []Encoding{Sanger, Illumina1_3, Illumina1_5, Illumina1_8, Illumina1_9} {
+			cases++
+			hi, lo := Qphred(93), Qphred(0)
+			if e == Illumina1_3 || e == Illumina1_5 {
+				hi = 62
+			}
+			if e == Illumina1_5 {
+				lo = 2
+			}
+			if lo <= p && p <= hi {
+				nontrivial++
+				if got, want := Qsolexa(qs).Encode(e), p.Encode(e); got != want {
+					t.Fatalf("Qsolexa(%d).Encode(%d) = %d, but its Phred score %d encodes as %d", qs, e, got, p, want)
+				}
+			}
+		}
+	}
 	fmt.Printf("BOUNDED name=C18.tables cases=%d nontrivial=%d exhaustive=true domain=%q\n", cases, nontrivial, "all 256 Phred and Solexa scores, all bytes x 6 encodings; float tables vs exact (mpmath) spec tables")
 }
